@@ -164,13 +164,19 @@ def numCell (r : Rec) (k : String) : Except Err (Option Rat) :=
   | none => .ok none
   | some v => (numOf v).map some
 
-/-- the `KeySounds` cell of `pd.DataFrame(dicts)` / `reindex`: absent → NaN -/
+/-- the `KeySounds` cell of `pd.DataFrame(dicts)` / `reindex`: absent → NaN; a scalar stays a scalar, which the last
+step of `from_yaml` treats like NaN (`isinstance(k, list)`); a list of something else is outside the domain -/
 def ksCell (r : Rec) : Except Err KsCell :=
   match r.get "KeySounds" with
   | none => .ok .nan
-  | some .nan => .ok .nan
   | some (.ks l) => .ok (.list l)
-  | some _ => .error .type
+  | some (.strs _) => .error .type
+  | some _ => .ok .nan
+
+/-- `df.keysounds = [k if isinstance(k, list) else [] for k in df.keysounds]` (repair of D21) -/
+def ksFill : KsCell → KsCell
+  | .nan => .list []
+  | k => k
 
 /-- a row of the frame `pd.DataFrame(dicts)` builds from hit-object records (NaN = `none`) -/
 structure NoteRow where
@@ -201,10 +207,10 @@ def hitsFromYaml (rs : List Rec) : Except Err (List Hit) := do
   if rows.all (fun r => r.lane.isNone) then .error .attr                     -- df.column: no such column
   else
     let rows := rows.map (fun r => { r with lane := r.lane.map (· - (laneShift : Rat)) })   -- df.column -= 1
-    -- reindex adds the missing columns as NaN; fillna(0) on offset and column; keysounds stays as it is
+    -- reindex adds the missing columns as NaN; fillna(0) on offset and column; non-list keysounds become []
     mapE (fun r => do
       let c ← intOfRat (r.lane.getD fillColumn)
-      .ok (⟨r.start.getD fillOffset, c, r.ks⟩ : Hit)) rows
+      .ok (⟨r.start.getD fillOffset, c, ksFill r.ks⟩ : Hit)) rows
 
 /-- `QuaHoldList.from_yaml` (called only for a non-empty list of records that all have `EndTime`) -/
 def holdsFromYaml (rs : List Rec) : Except Err (List Hold) := do
@@ -216,7 +222,7 @@ def holdsFromYaml (rs : List Rec) : Except Err (List Hold) := do
     let rows := rows.map (fun r => { r with lane := r.lane.map (· - (laneShift : Rat)) })   -- df.column -= 1
     mapE (fun r => do
       let c ← intOfRat (r.lane.getD fillColumn)
-      .ok (⟨r.start.getD fillOffset, c, r.endT.getD fillLength, r.ks⟩ : Hold)) rows
+      .ok (⟨r.start.getD fillOffset, c, r.endT.getD fillLength, ksFill r.ks⟩ : Hold)) rows
 
 def hasEnd (r : Rec) : Bool := (r.get "EndTime").isSome
 
